@@ -111,8 +111,14 @@ def _fold(e, env: dict):
     class F(ast.NodeTransformer):
         def visit_Name(self, node):
             if isinstance(node.ctx, ast.Load) and node.id in env:
-                return ast.copy_location(ast.Constant(value=env[node.id]), node)
+                v = env[node.id]
+                if isinstance(v, ast.AST):
+                    return ast.copy_location(clone(v), node)  # a name standing for an expression (a table entry, a local of the loop)
+                return ast.copy_location(ast.Constant(value=v), node)
             return node
+
+        def visit_Lambda(self, node):
+            return node  # a scope of its own
 
         def visit_JoinedStr(self, node):
             self.generic_visit(node)
@@ -152,6 +158,27 @@ def _assign_targets(f: FuncInfo):
                     and isinstance(call.args[1], ast.Name) and call.args[1].id == n.target.id and cls_d and cls_d.split(".")[0] in ("_core", "_graph_containers"):
                 for e in it.elts:
                     out.append((f"{cls_d}.{e.value}", _fold(call.args[2], {n.target.id: e.value}), n))
+        elif isinstance(n, ast.For) and not n.orelse and n.body and isinstance(n.body[-1], ast.Expr) and isinstance(n.body[-1].value, ast.Call) \
+                and dotted_of(n.body[-1].value.func) == "setattr" and len(n.body[-1].value.args) == 3 \
+                and all(isinstance(st, ast.Assign) and len(st.targets) == 1 and isinstance(st.targets[0], ast.Name) for st in n.body[:-1]):
+            # `for name, extra in TABLE.items(): <locals>; setattr(_core.X, name, <value>)` with TABLE a dict display keyed by strings
+            it = n.iter
+            tab = None
+            if isinstance(it, ast.Call) and isinstance(it.func, ast.Attribute) and it.func.attr == "items" and not it.args and isinstance(it.func.value, ast.Name):
+                binds = [a.value for a in own_nodes(f.node) if isinstance(a, (ast.Assign, ast.AnnAssign)) and getattr(a, "value", None) is not None and any(
+                    isinstance(t, ast.Name) and t.id == it.func.value.id for t in (a.targets if isinstance(a, ast.Assign) else [a.target]))]
+                tab = binds[0] if len(binds) == 1 and isinstance(binds[0], ast.Dict) else None
+            call = n.body[-1].value
+            cls_d = dotted_of(call.args[0])
+            if tab is not None and isinstance(n.target, ast.Tuple) and len(n.target.elts) == 2 and all(isinstance(e, ast.Name) for e in n.target.elts) \
+                    and all(isinstance(k_, ast.Constant) and isinstance(k_.value, str) for k_ in tab.keys) \
+                    and isinstance(call.args[1], ast.Name) and call.args[1].id == n.target.elts[0].id and cls_d and cls_d.split(".")[0] in ("_core", "_graph_containers"):
+                kname, vname = n.target.elts[0].id, n.target.elts[1].id
+                for k_, v_ in zip(tab.keys, tab.values):
+                    env = {kname: k_.value, vname: v_}
+                    for st in n.body[:-1]:
+                        env[st.targets[0].id] = _fold(st.value, env)
+                    out.append((f"{cls_d}.{k_.value}", _fold(call.args[2], env), n))
     return out
 
 
